@@ -166,7 +166,7 @@ def run_case(chk, cc, fm, lattice, tier, rng, system=None, nvol=5):
 
     t0 = time.time()
     try:
-        res = X.run_single_path(fn, name="C05:" + name)
+        res = X.run_single_path(fn, name="C05:" + name, generic=True)
     except SymError as e:
         # an undecided guard stops the symbolic run: look at the real code on concrete data before calling it inconclusive
         replay_end_to_end(chk, rng, "symbolic run stopped: %s" % e, static_rows=nvol if nvol != 5 else None)
